@@ -160,6 +160,12 @@ struct DomWorld {
             else if (a == "replaceChild") { N(A(0))->replaceChild(N(A(1)), N(A(2))); }
             else if (a == "cloneNode") { regTree(N(A(0))->cloneNode(A(1) != 0)); }
             else if (a == "importNode") { regTree(D(A(0))->importNode(N(A(1)), A(2) != 0)); }
+            else if (a == "renameNode") { static const XMLCh nons[] = {0}; D(A(0))->renameNode(N(A(1)), nons, nm); }
+            else if (a == "renameNodeNS") {
+                X q("p:" + op.value("nm", std::string()));
+                DOMNode* r = D(A(0))->renameNode(N(A(1)), X("u"), q);
+                if (r && !idOf.count(r)) reg(r);
+            }
             else if (a == "adoptNode") { if (!D(A(0))->adoptNode(N(A(1)))) return "null"; }
             else if (a == "setAttribute") {
                 DOMElement* e = static_cast<DOMElement*>(N(A(0)));
